@@ -8,7 +8,8 @@ Two sources of truth, both read on every run:
     divisors and digit alphabet of utils.c, getBasePrefix and scratch-buffer sizes of parser.c,
     the multiplier *expressions* of units.c, kept as exact rationals).
 
-The functions of fifo.c are translated as a whole (not only tables) by translate/c2lean.py, called from generate().
+The functions of fifo.c are translated as a whole (not only tables) by translate/c2lean.py, the status-register functions of
+ieee488.c by translate/c2lean_regs.py, both called from generate().
 """
 import os, re, subprocess, sys, json
 from fractions import Fraction
@@ -346,9 +347,24 @@ def generate(cfg="A", builddir=None, outpath=None):
                 f.write(_c.stub("ScpiVerif.Gen.FifoC", failed["fifo_c"]))
         except Exception:
             pass
-    return {"changed": old != text or fifo_c.get("changed", False), "path": outpath, "failed": failed,
+    # C -> Lean translation of the status-register functions of ieee488.c (Gen/RegsC.lean): same treatment, own section
+    regs_c = {"functions": [], "changed": False}
+    try:
+        import c2lean_regs
+        regs_c = c2lean_regs.generate_regs(os.path.join(os.path.dirname(outpath), "RegsC.lean"))
+        if regs_c["failed"]:
+            failed["regs_c"] = "; ".join("%s: %s" % kv for kv in sorted(regs_c["failed"].items()))[:400]
+    except Exception as e:
+        failed["regs_c"] = ("c2lean_regs: %s: %s" % (type(e).__name__, e))[:400]
+        try:
+            import c2lean as _c
+            with open(os.path.join(os.path.dirname(outpath), "RegsC.lean"), "w") as f:
+                f.write(_c.stub("ScpiVerif.Gen.RegsC", failed["regs_c"]))
+        except Exception:
+            pass
+    return {"changed": old != text or fifo_c.get("changed", False) or regs_c.get("changed", False), "path": outpath, "failed": failed,
             "rows": {"errclass": len(errclass), "errdesc": len(errdesc), "units": len(unit_rows), "special": len(special),
-                     "fifo_c_functions": len(fifo_c.get("functions", []))}}
+                     "fifo_c_functions": len(fifo_c.get("functions", [])), "regs_c_functions": len(regs_c.get("functions", []))}}
 
 if __name__ == "__main__":
     cfg = sys.argv[1] if len(sys.argv) > 1 else "A"
